@@ -349,16 +349,31 @@ def run_case(case, order):
             return _orig()
 
         a.finalize = fin
+    import signal
+
+    class RunTooLong(BaseException):
+        pass
+
+    def too_long(_sig, _frm):
+        raise RunTooLong()
+
+    signal.signal(signal.SIGALRM, too_long)
+    signal.setitimer(signal.ITIMER_REAL, 60.0)      # a run of these small compositions takes milliseconds
     try:
         comp.run(end_time=end)
         outcome = "ok"
+    except RunTooLong:
+        outcome = "error:the run (connect phase or main loop) did not return within 60 s"
     except fm.FinamCircularCouplingError:
         outcome = "circular"
     except (fm.FinamConnectError, fm.FinamMetaDataError) as e:
         outcome = "rejected:" + type(e).__name__
     except Exception as e:
         outcome = "error:" + type(e).__name__ + ":" + str(e)[:120]
+    signal.setitimer(signal.ITIMER_REAL, 0)
     series = {o._name_: list(o.received) for o in objs if isinstance(o, Relay)}
+    if fail is None and outcome.startswith("error:the run"):
+        fail = "C03: " + outcome[6:]
     if fail is None:
         for o in objs:
             if isinstance(o, Relay) and o.errors:
